@@ -6,13 +6,11 @@ import (
 	"crypto/elliptic"
 	"crypto/sha256"
 	"crypto/x509"
-	"encoding/asn1"
 	"encoding/pem"
 	"errors"
 	//"flag"
 	"fmt"
 	"log"
-	"math/big"
 
 	// START CT CHANGES
 	"github.com/zmap/zcrypto/rsa"
@@ -95,18 +93,9 @@ func (s SignatureVerifier) verifySignature(data []byte, sig DigitallySigned) err
 		if !ok {
 			return fmt.Errorf("cannot verify ECDSA signature with %T key", s.pubKey)
 		}
-		var ecdsaSig struct {
-			R, S *big.Int
-		}
-		rest, err := asn1.Unmarshal(sig.Signature, &ecdsaSig)
-		if err != nil {
-			return fmt.Errorf("failed to unmarshal ECDSA signature: %v", err)
-		}
-		if len(rest) != 0 {
-			return fmt.Errorf("garbage following ECDSA signature: %v", rest)
-		}
-
-		if !ecdsa.Verify(ecdsaKey, hash, ecdsaSig.R, ecdsaSig.S) {
+		// VerifyASN1 accepts exactly the DER encoding of ECDSA-Sig-Value: no bytes
+		// after the SEQUENCE and no elements after s inside it.
+		if !ecdsa.VerifyASN1(ecdsaKey, hash, sig.Signature) {
 			return errors.New("failed to verify ecdsa signature")
 		}
 	default:
